@@ -483,7 +483,7 @@ func main() {
 		"header timestamps are in the past, so the wall-clock future-block tests are constant",
 		"zilliqa / zilliqalegacy genesis + header are the repo's own recorded main-net vectors (test_genesis, first record of test_blocks)")
 	r.Finish(map[string]any{
-		"rule": "per router: all sequences over {install G1|G2 on chain A|B, sync header H on A|B} up to the depth bound, BFS over full store dumps; after a successful syncGenesisHeader for a chain every later one must fail and leave the dump byte-identical; first installs accepted; no write to the sibling chain; failed tx changes nothing",
+		"rule":                          "per router: all sequences over {install G1|G2 on chain A|B, sync header H on A|B} up to the depth bound, BFS over full store dumps; after a successful syncGenesisHeader for a chain every later one must fail and leave the dump byte-identical; first installs accepted; no write to the sibling chain; failed tx changes nothing",
 		"bounds":                        map[string]any{"tier": r.Tier, "max_depth": depth, "events_per_router": "4 installs (+2 header syncs where synthesised)", "chains_per_router": 2},
 		"routers":                       routers,
 		"per_router":                    perRouter,
